@@ -94,6 +94,8 @@ class Recorder:
         if self.poison:
             raise Poisoned("numpy.random.uniform called")
         res = self.nprng.uniform(low, high, size)
+        if size == 2:                       # a point in the plane: coarse grid so that equal distances occur
+            res = _np.round(res * 4) / 4
         self.log.append({"kind": "np_uniform", "low": low, "high": high, "size": size,
                          "result": res.tolist() if hasattr(res, "tolist") else res})
         return res
@@ -102,6 +104,8 @@ class Recorder:
         if self.poison:
             raise Poisoned("numpy.random.normal called")
         res = self.nprng.normal(loc, scale, size)
+        # a coarse grid makes equal distances (ties in the spatial sort) actually occur
+        res = _np.round(_np.asarray(res) * 4) / 4 if size is not None else round(float(res) * 4) / 4
         self.log.append({"kind": "np_normal", "loc": loc, "scale": scale, "size": size,
                          "result": res.tolist() if hasattr(res, "tolist") else res})
         return res
